@@ -365,6 +365,16 @@ class Translator:
             for x, y in ((a, b), (b, a)):
                 if isinstance(y, ast.Constant) and y.value is None:
                     cx = self.canon(x) if self.canon is not None else x
+                    if isinstance(cx, ast.Constant):
+                        return ("const", (cx.value is None) == pos)
+                    if isinstance(cx, ast.IfExp):
+                        # (a if c else b) is None  <=>  c and a is None  or  not c and b is None
+                        c_ = self.f(cx.test)
+                        r_ = Or(And(c_, self.cmp(cx.body, ast.Is(), y)), And(Not(c_), self.cmp(cx.orelse, ast.Is(), y)))
+                        return r_ if pos else Not(r_)
+                    kx = self.key(x)
+                    if kx in ("None",) or kx.isdigit() or (kx[:1] in "'\"" and kx[-1:] == kx[:1]):
+                        return ("const", (kx == "None") == pos)
                     if isinstance(cx, ast.Call) and isinstance(cx.func, ast.Attribute) and cx.func.attr == "get" \
                             and len(cx.args) == 1 and not cx.keywords:
                         # D.get(k) is None  <=>  k not in D   (dictionaries of this package never store None as an index)
@@ -374,6 +384,11 @@ class Translator:
                     return at if pos else Not(at)
             at = B(f"is:{self.key(a)}|{self.key(b)}")
             return at if pos else Not(at)
+        if isinstance(op, (ast.In, ast.NotIn)) and isinstance(b, (ast.Tuple, ast.List, ast.Set)) and 1 <= len(b.elts) <= 6 \
+                and all(isinstance(x, ast.Constant) for x in b.elts):
+            # x in ("a", "b")  <=>  x == "a" or x == "b"
+            d = Or(*[self.cmp(a, ast.Eq(), x) for x in b.elts])
+            return d if isinstance(op, ast.In) else Not(d)
         if isinstance(op, (ast.In, ast.NotIn)):
             at = B(f"in:{self.key(a)}|{self.key(b)}")
             return at if isinstance(op, ast.In) else Not(at)
